@@ -804,6 +804,12 @@ def str_method(ex, s, name, args, kwargs):
                         z3.And(t == z3.Concat(head, sep, tail), z3.Not(z3.Contains(tail, sep))) if True else True,
                         z3.And(head == z3.StringVal(""), tail == t)))
         return (SV(head, STR), SV(z3.If(found, sep, z3.StringVal("")), STR), SV(tail, STR))
+    if name in ("rsplit", "split") and len(args) == 2 and args[1] == 1:
+        # one split at the last / first occurrence: [head, tail] when the separator occurs, else [s]
+        h, sp, tl = str_method(ex, s, "rpartition" if name == "rsplit" else "partition", [args[0]], {})
+        if ex.branch(z3.Contains(t, term(args[0], STR)), f"{name}-found"):
+            return [h, tl]
+        return [s]
     if name == "replace" and len(args) == 2:
         ex.assumptions_used.add("z3 str.replace_all as python str.replace")
         raise Unsupported("str.replace on symbolic strings")
